@@ -313,12 +313,14 @@ func (c *ShadowStreamClientConn) initRead(b []byte) (payloadLen int, err error) 
 	// Open sealed response header.
 	plaintext, err := shadowStreamCipher.DecryptInPlace(ciphertext)
 	if err != nil {
+		c.ShadowStreamConn.readErr = err
 		return 0, err
 	}
 
 	// Parse response header.
 	payloadLen, err = ParseTCPResponseHeader(plaintext, time.Now(), c.requestSalt[:c.requestSaltLen])
 	if err != nil {
+		c.ShadowStreamConn.readErr = err
 		return 0, err
 	}
 
@@ -328,11 +330,17 @@ func (c *ShadowStreamClientConn) initRead(b []byte) (payloadLen int, err error) 
 func (c *ShadowStreamClientConn) readFirstPayloadChunk(b []byte) error {
 	// Read sealed payload chunk.
 	if _, err := io.ReadFull(c.ShadowStreamConn.Conn, b); err != nil {
+		if err != io.EOF {
+			c.ShadowStreamConn.readErr = err
+		}
 		return err
 	}
 
 	// Open sealed payload chunk.
 	_, err := c.ShadowStreamConn.readCipher.DecryptInPlace(b)
+	if err != nil {
+		c.ShadowStreamConn.readErr = err
+	}
 	return err
 }
 
@@ -359,6 +367,7 @@ type ShadowStreamConn struct {
 	readBuf    []byte // lazily allocated; length is readEnd
 	readStart  int
 	readCipher *ShadowStreamCipher
+	readErr    error // sticky: set by the first failed read other than io.EOF
 
 	writeBuf    []byte // non-nil; length is always 0
 	writeCipher *ShadowStreamCipher
@@ -460,6 +469,19 @@ func (c *ShadowStreamConn) read(b []byte) (n int, err error) {
 		panic(fmt.Sprintf("ss2022.ShadowStreamConn.read: buffer too small: %d < %d", cap(b), streamReadMinBufferSize))
 	}
 
+	// A failed read leaves the cipher out of step with the stream.
+	// Later reads must not be given a chance to authenticate some other chunk in its place.
+	if c.readErr != nil {
+		return 0, c.readErr
+	}
+	n, err = c.readChunk(b)
+	if err != nil && err != io.EOF {
+		c.readErr = err
+	}
+	return n, err
+}
+
+func (c *ShadowStreamConn) readChunk(b []byte) (n int, err error) {
 	// Read sealed length chunk.
 	ciphertext := b[:2+tagSize]
 	if _, err = io.ReadFull(c.Conn, ciphertext); err != nil {
